@@ -183,6 +183,54 @@ fn attack(ctx: &Ctx, b: &Bundle) {
             found.push((field, div, "linear-combination".into(), what));
         }
     }
+    // blinding that cancels between the commitments of one range proof: a product / quotient of two of its
+    // group elements equal to g^k for an exponent k that is a public function of the hidden value
+    for (ri, (prefix, lo, hi, kind, x)) in b.ranges.iter().enumerate() {
+        let g = &b.range_bases[ri];
+        let vals: Vec<(String, Integer)> = ls.iter().filter(|(p, v)| p.starts_with(prefix.as_str()) && *v > 1 && v < n && v.significant_bits() + 64 > n.significant_bits())
+            .map(|(p, v)| (p[prefix.len()..].to_string(), v.clone())).collect();
+        let mut combos: HashMap<Integer, String> = HashMap::new();
+        for (i, (pa, va)) in vals.iter().enumerate() {
+            combos.entry(va.clone()).or_insert_with(|| pa.clone());
+            for (pb, vb) in vals.iter().skip(i + 1) {
+                combos.entry(mulm(va, vb, n)).or_insert_with(|| format!("{}*{}", pa, pb));
+                if let Ok(inv) = vb.clone().invert(n) {
+                    combos.entry(mulm(va, &inv, n)).or_insert_with(|| format!("{}/{}", pa, pb));
+                }
+            }
+        }
+        let exps = |xx: &Integer| -> Vec<Integer> {
+            let (t, aa, bb) = boudot_public(lo, hi);
+            let xp = Integer::from(xx << t);
+            let w = boudot_witnesses("w", xx, lo, hi);
+            let (a1, b1, a2, b2) = (w[0].1.clone(), w[1].1.clone(), w[2].1.clone(), w[3].1.clone());
+            let base: Vec<Integer> = vec![Integer::from(&a1 * &a1), Integer::from(&b1 * &b1), a2.clone(), b2.clone(), a1, b1, xp.clone(), Integer::from(&xp - &aa), Integer::from(&bb - &xp), xx.clone()];
+            let mut out = base.clone();
+            for i in 0..base.len() {
+                for j in i + 1..base.len() {
+                    out.push(Integer::from(&base[i] + &base[j]));
+                    out.push(Integer::from(&base[i] - &base[j]));
+                }
+            }
+            out
+        };
+        let hit = |xx: &Integer| -> Option<String> {
+            for k in exps(xx) {
+                let gk = if k >= 0 { powm(g, &k, n) } else { match powm(g, &Integer::from(-&k), n).invert(n) { Ok(v) => v, Err(_) => continue } };
+                if let Some(w) = combos.get(&gk) {
+                    return Some(w.clone());
+                }
+            }
+            None
+        };
+        ctx.count("cancellation_tests(range proofs)", 1);
+        if let Some(w) = hit(x) {
+            let decoy = Integer::from(x ^ Integer::from(0x33u32));
+            if hit(&decoy).is_none() {
+                found.push((format!("{}{}", path_class(prefix), w), "no-blinding-left".into(), "combination-of-sibling-commitments".into(), kind.clone()));
+            }
+        }
+    }
     found.sort();
     found.dedup();
     for (vf, rf, bl, kind) in &found {
